@@ -46,7 +46,7 @@ def mandatory_bins(tier):
     b += ["key_trailing_zero_%d" % z for z in (1, 2, 3, 15)]
     b += ["crc_lo_00:cust", "crc_hi_00:cust", "crc_both_00:cust", "crc_lo_00:update", "crc_hi_00:update", "crc_both_00:update",
           "decryptors_all", "decryptors_single", "decryptors_partial", "pass_through_block", "encrypted_config_component", "customer_key_present", "customer_key_absent",
-          "version_00", "version_ff", "version_80", "code_all_zero", "code_ends_00", "config_blob_trailing_zero_padding", "key_all_zero", "ecc_distractor_decryptors_before_the_matching_one", "ecc_distractor_encryptors_on_write", "second_write_after_replacing_a_block_of_the_same_kind", "foreign_blocks_of_unknown_kind", "session_key_contains_customer_key", "file_name_instead_of_stream", "read_with_mac_check_off", "update_block_attributes_reassigned", "stream_positioned_after_other_content", "constructed_without_block_list_then_add_auth_block", "encryptors_given_as_tuple", "encryptors_given_as_deque", "encryptors_given_as_dict_values", "several_encrypted_components", "write_and_read_by_concurrent_threads"]
+          "version_00", "version_ff", "version_80", "code_all_zero", "code_ends_00", "config_blob_trailing_zero_padding", "key_all_zero", "ecc_distractor_decryptors_before_the_matching_one", "ecc_distractor_encryptors_on_write", "second_write_after_replacing_a_block_of_the_same_kind", "foreign_blocks_of_unknown_kind", "session_key_contains_customer_key", "file_name_instead_of_stream", "read_with_mac_check_off", "update_block_attributes_reassigned", "stream_positioned_after_other_content", "constructed_without_block_list_then_add_auth_block", "encryptors_given_as_tuple", "encryptors_given_as_deque", "encryptors_given_as_dict_values", "several_encrypted_components", "write_and_read_by_concurrent_threads", "one_ecc_decryptor_object_shared_by_reading_threads"]
     return b
 
 
@@ -294,7 +294,7 @@ def run_threads(ns, ctx, spec):
     B, BFm = ns.bec2file, ns.bf3file
     rng = ctx.rng
     codes = yieldrun.code_objects_of(BFm, BFm.Bf3File, BFm.Bf3Component, B.Bec2File, B.AesEncryptorMixin, B.SoftwareCustKeyEncryptor, B.UpdateAuthBlock, B.InitCustKeyAuthBlock, B.AuthBlock, ns.bytes_reader.BytesReader,
-                                     ns.plugin.AES128Proxy, ns.aes.AESModeOfOperationCBC)
+                                     ns.plugin.AES128Proxy, ns.aes.AESModeOfOperationCBC, ns.plugin.PrivateEccKeyProxy, ns.plugin.PublicEccKeyProxy, B.EccEncryptor, B.EccDecryptor, B.InitEccAuthBlock)
     total = 0
     for rnd in range(spec["rounds"]):
         nthreads = (2, 3)[rnd % 2]
@@ -303,13 +303,20 @@ def run_threads(ns, ctx, spec):
         if rnd % 4 >= 2:
             keys = [keys[0]] * nthreads
         all_specs = [GB.gen_blocks(rng, rng.choice((("cust",), ("update",), ("cust", "update"), ("update", "cust")))) for _ in range(nthreads)]
+        shared_dec = None
+        if rnd % 3 == 2:
+            # every file has an ECC block for the SAME recipient, and all threads read with ONE shared decryptor object
+            one = GB.gen_block_spec(rng, "ecc")
+            all_specs = [[dict(one)] for _ in range(nthreads)]
+            shared_dec = [GB.encryptor_for(ns, one, True)]
+            ctx.bin("one_ecc_decryptor_object_shared_by_reading_threads")
 
         def body(i):
             def run():
                 f = B.Bec2File(G.build_real(ns, cases[i]), GB.real_auth_blocks(ns, all_specs[i]), keys[i])
                 buf = io.StringIO()
                 f.write_file(buf, GB.write_encryptors(ns, all_specs[i]))
-                back = B.Bec2File.read_file(io.StringIO(buf.getvalue()), GB.read_encryptors(ns, all_specs[i]), True)
+                back = B.Bec2File.read_file(io.StringIO(buf.getvalue()), shared_dec if shared_dec else GB.read_encryptors(ns, all_specs[i]), True)
                 return bytes(back.session_key), G.diff_file(back.bf3file, cases[i]), [block_attrs(b, ns) for b in back.auth_blocks.values()]
             return run
 
@@ -329,13 +336,47 @@ def run_threads(ns, ctx, spec):
                     ctx.violation("reader_rejects_file_written_by_writer:concurrent_threads", {"exc": r[1]}, rp)
             else:
                 k_, d_, blocks_ = r[1]
-                want = [{"cust": ("cust", 1), "update": ("update", 2, s_.get("code"), s_.get("version"))}[s_["kind"]] for s_ in all_specs[i]]
+                want = [{"cust": ("cust", 1), "ecc": ("ecc", 3, s_.get("sel")), "update": ("update", 2, s_.get("code"), s_.get("version"))}[s_["kind"]] for s_ in all_specs[i]]
                 if k_ != keys[i]:
                     ctx.violation("session_key_differs", {"how": "concurrent_threads"}, rp)
                 elif d_:
                     ctx.violation("content_differs:" + d_[0].split("[")[0], {"diff": d_, "how": "concurrent_threads"}, rp)
                 elif blocks_ != want:
                     ctx.violation("auth_blocks_differ:attributes", {"got": blocks_, "expected": want, "how": "concurrent_threads"}, rp)
+    # files with an ECC block for ONE recipient, written beforehand; the threads only READ, all through one shared decryptor object
+    codes2 = yieldrun.code_objects_of(ns.plugin.PrivateEccKeyProxy, ns.plugin.PublicEccKeyProxy, B.EccEncryptor, B.EccDecryptor, B.InitEccAuthBlock)
+    for rnd in range(max(2, spec["rounds"] // 2)):
+        nthreads = (2, 3)[rnd % 2]
+        one = GB.gen_block_spec(rng, "ecc")
+        dec = [GB.encryptor_for(ns, one, True)]
+        keys = [rng.randbytes(16) for _ in range(nthreads)]
+        cases = [G.gen_case(rng, ncomp=1) for _ in range(nthreads)]
+        texts = []
+        for i in range(nthreads):
+            buf = io.StringIO()
+            B.Bec2File(G.build_real(ns, cases[i]), GB.real_auth_blocks(ns, [one]), keys[i]).write_file(buf, GB.write_encryptors(ns, [one]))
+            texts.append(buf.getvalue())
+
+        def body2(i):
+            def run():
+                back = B.Bec2File.read_file(io.StringIO(texts[i]), dec, True)
+                return bytes(back.session_key), G.diff_file(back.bf3file, cases[i])
+            return run
+
+        res, y = yieldrun.run_concurrently([body2(i) for i in range(nthreads)], codes2, sleep=0.0005, max_yields=4000)
+        total += y
+        ctx.ev(nthreads)
+        ctx.bin("one_ecc_decryptor_object_shared_by_reading_threads")
+        ctx.mon("read_file", nthreads)
+        for i, r in enumerate(res):
+            rp = {"case": cases[i].to_json(), "conf": None, "key": keys[i].hex(), "blocks": GB.spec_json([one]), "concurrent": True}
+            if r is None:
+                ctx.note("thread_still_running_after_timeout(inconclusive)")
+            elif r[0] == "exc":
+                if not any(len(c.desc_bytes()) > 210 for c in cases[i].comps):
+                    ctx.violation("reader_rejects_file_written_by_writer:shared_decryptor_concurrent_threads", {"exc": r[1]}, rp)
+            elif r[1][0] != keys[i] or r[1][1]:
+                ctx.violation("session_key_differs" if r[1][0] != keys[i] else "content_differs:" + r[1][1][0].split("[")[0], {"how": "shared_decryptor_concurrent_threads"}, rp)
     ctx.mon("line_yields_injected", total)
     ctx.sample({"kind": "threads", "rounds": spec["rounds"], "line_yields": total})
 
